@@ -54,15 +54,21 @@ var c13toMap = value.NewToMap[c13struct]().
 
 var c13refl = value.NewToMapReflection[c13struct]()
 
+// a map backed by a function: of the declared keys, "c" is present for odd values only and "k1" never; the
+// function also answers for "key", which is not declared (so it is no key of the map)
 var c13fmf = value.NewFuncMapFactory[value.Int](func(v value.Int, key string) (value.Value, bool) {
 	switch key {
 	case "a":
 		return v, true
 	case "b":
 		return v * 2, true
+	case "c":
+		return v + 100, v%2 == 1
+	case "key":
+		return value.Int(7), true
 	}
 	return nil, false
-}, "a", "b")
+}, "a", "b", "c", "k1")
 
 func (h *hist) hostMaps() {
 	s := c13struct{A: int(h.r.IntN(5)), B: "x", C: 1.5, D: true}
@@ -71,7 +77,11 @@ func (h *hist) hostMaps() {
 	m2, _ := c13refl.Create(s)
 	h.hs = append(h.hs, &handle{ref: markUnordered(ref.MapOf("A", int64(s.A), "B", s.B, "C", s.C, "D", s.D)), real: m2, how: "NewToMapReflection"})
 	k := int64(h.r.IntN(5))
-	h.hs = append(h.hs, &handle{ref: ref.MapOf("a", k, "b", 2*k), real: c13fmf.Create(value.Int(k)), how: "NewFuncMapFactory"})
+	fm := ref.MapOf("a", k, "b", 2*k)
+	if k%2 == 1 {
+		fm = ref.MapOf("a", k, "b", 2*k, "c", k+100)
+	}
+	h.hs = append(h.hs, &handle{ref: fm, real: c13fmf.Create(value.Int(k)), how: "NewFuncMapFactory"})
 	h.log = append(h.log, "h0..h2 := host-built maps (NewToMap, NewToMapReflection, NewFuncMapFactory)")
 }
 
@@ -122,6 +132,15 @@ func (h *hist) mapStep() {
 			seen[k] = true
 			keys = append(keys, k)
 			vals = append(vals, h.scalar())
+		}
+		if h.r.IntN(6) == 0 {
+			// sizes around and beyond the point where a list map stops being efficient (about 20 entries)
+			big := []int{18, 19, 20, 21, 22, 25, 32, 40}[h.r.IntN(8)]
+			for i := 0; len(keys) < big; i++ {
+				keys = append(keys, fmt.Sprintf("g%d", i))
+				vals = append(vals, h.scalar())
+			}
+			h.c.Count("maps_with_more_than_17_entries", 1)
 		}
 		h.derive("literal", ref.MapN(keys, vals))
 	case 2, 3:
